@@ -22,19 +22,24 @@
                   <= 5 (PANOC) / 4 (ZeroFPR, PANTR) / 6 (FISTA) oracle calls + the halvings of the unpolled initial step-size loop.
    (3) VALIDITY: an Interrupted run of each of the four models returns outputs satisfying the exit relations of C03
        (x = x̂ of a consistent iterate, y = ŷ(x), err_z = (ŷ - y)/Σ).
-   (4) UNDER ALM (AlmCompose/AlmPanoc, cumulative counters): the inner solve in which a poll sees the request returns by (2); if it
-       returns Interrupted, ALM returns Interrupted at once; EVERY later inner solve is start-up + one stop check; the first of them
-       that returns Interrupted is the last.
-   FINDING (model and code agree, C19_alm_one_further_solve_refuted): "at most ONE further inner solve" is false.  ALM never polls the
-       flag; while the later inner solves end at their first check with a status ranked above Interrupted (Converged because the
-       warm start already meets the inner tolerance, NotFinite, MaxIter with max_iter = 0) the outer loop goes on until its own exit
-       test.  Concrete run: min -x, x in [0,1], x <= 1/2, x0 = 1, Σ0 = 0.01: stop() in evaluation #0, four inner solves follow.
-       The proved bound under ALM is therefore per inner solve, times the number of inner solves started after the request.
+   (4) UNDER ALM (AlmCompose / AlmPanoc, AlmZeroFpr, AlmPantr, AlmFista; cumulative counters; ALMSolver::stop() sets ALM's own flag and
+       the inner solver's, so one sticky oracle serves both; the outer loop reads its flag once per outer iteration, after the inner
+       solve: Alm.ir_stop):  NO INNER SOLVE IS STARTED AFTER THE REQUEST.  C19_alm_{panoc,zerofpr,pantr,fista}_stop_ends_run: the outer
+       iteration at the end of whose inner solve the request is visible is the LAST one of the run (run_ends_at: post = [],
+       outer_iterations = its index + 1, status Interrupted if the inner solve said so, else Converged > MaxTime > MaxIter >
+       Interrupted); the request is visible there whenever a poll of that inner solve saw it — the solve then returns by (2) — or it
+       was already visible when the solve started — the solve is then start-up + one stop check.  So the evaluations after the request
+       are those of ONE inner solve's tail.
+   FORMER FINDING (known_findings C19:alm-runs-on-after-stop-request, repaired in /repo): ALMSolver::stop() only forwarded to the inner
+       solver and the outer loop looked at no flag; while the inner solves ended at their first check with a status ranked above
+       Interrupted (Converged because the warm start already meets the inner tolerance) the outer loop ran on.  Counter-run: min -x,
+       x in [0,1], x <= 1/2, x0 = 1, Σ0 = 0.01, stop() in evaluation #0: four inner solves followed (C19_alm_one_further_solve_refuted
+       in the history of this file); the same run now: one inner solve, Interrupted (C19_alm_stop_ends_run_nonvacuous).
    NOT EXPRESSIBLE in these models (stated, not claimed): true asynchrony (the request is a function of the event counters, i.e. it
    becomes visible between two modelled events, not in the middle of a user function) and the absence of a data race on the
    atomic stop flag (relaxed load / seq_cst store).
    ALSO PROVED: PANOC-OCP (module C19_OCP: a line-search pass <= 3 oracle calls; after a poll that sees the request <= 1 further poll and
-   NO oracle call, no Gauss-Newton / L-BFGS call, curr untouched); ALM over ZeroFPR, PANTR, FISTA (C19_alm_*_stop_is_prompt).
+   NO oracle call, no Gauss-Newton / L-BFGS call, curr untouched).
    Validity of Interrupted PANOC-OCP outputs: Properties_PANOCOCP.PANOCOCP_exit holds for every completed run (not repeated here). *)
 From Coq Require Import Reals List ZArith Bool Arith.
 From Alpaqa Require Import Num NumR Vec Prox SolverStatus SolverKernels StopChain StopChainProofs LoopSkeleton SolverKernelsProofs Alm AlmProofs.
@@ -76,15 +81,36 @@ Print Assumptions C19_interrupted_only_after_request.
 Theorem C19_interrupted_overwrites : forall always, overwrites StInterrupted always = true.
 Proof. intros; reflexivity. Qed.
 
-(* ALM: an Interrupted inner solve is the last one — no further inner call, status Interrupted *)
+(* ALM (outer-loop model, every history of inner outcomes): an Interrupted inner solve is the last one, and so is an inner solve after
+   which ALM's own stop flag is read as set (ir_stop) — no further inner call; the run returns Interrupted exactly when the last inner
+   solve was interrupted, or the flag was set after it and none of Converged / MaxTime / MaxIter applies *)
 Theorem C19_alm_stops_after_interrupted : forall (P : alm_params (T:=R)) pb f0 g0 nanv Σ0 y0 script,
   Alm.p_max_iter P <> 0%nat -> pb_m pb <> 0%nat ->
   f_exhausted (snd (alm_run P pb f0 g0 nanv Σ0 y0 script)) = false ->
   exists (pre : list iter_rec) (r : iter_rec), fst (alm_run P pb f0 g0 nanv Σ0 y0 script) = pre ++ [r] /\
-    Forall (fun a => ir_status (it_res a) <> Interrupted) pre /\
-    (f_status (snd (alm_run P pb f0 g0 nanv Σ0 y0 script)) = Interrupted <-> ir_status (it_res r) = Interrupted).
+    Forall (fun a => ir_status (it_res a) <> Interrupted /\ ir_stop (it_res a) = false) pre /\
+    (f_status (snd (alm_run P pb f0 g0 nanv Σ0 y0 script)) = Interrupted <->
+     ir_status (it_res r) = Interrupted \/
+     (ir_stop (it_res r) = true /\ rec_conv P r = false /\ ir_oot (it_res r) = false /\ length (pre ++ [r]) <> Alm.p_max_iter P)).
 Proof. exact run_interrupted_immediate. Qed.
 Print Assumptions C19_alm_stops_after_interrupted.
+
+(* the outer iteration after whose inner solve ALM's own flag is read as set is the LAST one, whatever that solve returned and whatever
+   the history holds after it; status by the ranking Interrupted (inner) / Converged > MaxTime > MaxIter > Interrupted *)
+Theorem C19_alm_stop_flag_ends_run : forall (P : alm_params (T:=R)) pb f0 g0 nanv Σ0 y0 script,
+  Alm.p_max_iter P <> 0%nat -> pb_m pb <> 0%nat ->
+  forall (pre : list iter_rec) (r : iter_rec) (post : list iter_rec),
+    fst (alm_run P pb f0 g0 nanv Σ0 y0 script) = pre ++ r :: post -> ir_stop (it_res r) = true ->
+    post = [] /\
+    let f := snd (alm_run P pb f0 g0 nanv Σ0 y0 script) in
+    f_exhausted f = false /\ f_outer f = S (length pre) /\
+    f_status f =
+      (if is_interrupted (ir_status (it_res r)) then Interrupted
+       else if rec_conv P r then Converged else if ir_oot (it_res r) then MaxTime
+       else if Nat.eqb (S (length pre)) (Alm.p_max_iter P) then MaxIter else Interrupted) /\
+    (f_status f = Converged \/ f_status f = MaxTime \/ f_status f = MaxIter \/ f_status f = Interrupted).
+Proof. exact run_stop_request_ends_run. Qed.
+Print Assumptions C19_alm_stop_flag_ends_run.
 
 Example C19_nonvacuous :
   stop_status_helpers (T:=R) (1/2)%R 1%R false 4 5 0 10 true = StInterrupted.
@@ -432,7 +458,6 @@ Section C19_ALM.
   Notation Inner := (inner Pb prov wm_supplied Clb Cub l1 dir has_initial stop_req time_up outer_oot PP ls_fuel inner_fuel).
   Notation Almp := (alm_panoc Pb prov wm_supplied Clb Cub l1 split dir has_initial stop_req time_up outer_oot PP AP ls_fuel inner_fuel).
   Notation Called := (called counters (result (T:=R)) Inner).
-  Notation Called1 := (called1 Pb prov wm_supplied Clb Cub l1 dir has_initial stop_req time_up outer_oot PP ls_fuel inner_fuel).
   Notation Inner_polled := (inner_polled Pb prov wm_supplied Clb Cub l1 dir has_initial stop_req time_up PP ls_fuel).
 
   (* an inner solve that is start-up + ONE stop check *)
@@ -451,29 +476,40 @@ Section C19_ALM.
     Inner w i x y Σ tol e = Some (r, x', lg, w') -> one_check lg r /\ stop_req w' = true.
   Proof. exact (inner_after_request Pb prov wm_supplied Clb Cub l1 dir has_initial stop_req time_up outer_oot PP ls_fuel inner_fuel). Qed.
 
-  (* MAIN.  rc: the outer iteration in whose inner solve some poll pp sees the request; post: the outer iterations after it *)
-  Theorem C19_alm_panoc_stop_is_prompt : sticky stop_req -> forall outer_fuel nanv Σ0 y0 x0 co, Almp outer_fuel nanv Σ0 y0 x0 = Some co ->
+  (* what "the run ends at outer iteration rc" says (pre = the outer iterations before it, post = those after it) *)
+  Theorem C19_run_ends_at_means : forall (pb : alm_problem (T:=R)) (pre : list (iter_rec (T:=R))) rc post (f : final (T:=R)),
+    run_ends_at AP pb pre rc post f <->
+    (post = [] /\ f_outer f = S (length pre) /\
+     (pb_m pb <> 0%nat ->
+        f_status f = (if is_interrupted (ir_status (it_res rc)) then Interrupted
+                      else if rec_conv AP rc then Converged else if ir_oot (it_res rc) then MaxTime
+                      else if Nat.eqb (S (length pre)) (Alm.p_max_iter AP) then MaxIter else Interrupted)) /\
+     (pb_m pb = 0%nat -> f_status f = ir_status (it_res rc))).
+  Proof. exact (fun _ _ _ _ _ => conj (fun H => H) (fun H => H)). Qed.
+
+  (* what the outer loop reads from its own flag after an inner solve is the request at the world that solve hands on *)
+  Theorem C19_alm_flag_read_after_inner_solve : forall w i x y Σ tol e r x' lg w',
+    Inner w i x y Σ tol e = Some (r, x', lg, w') -> ir_stop r = stop_req w'.
+  Proof. exact (inner_stop_flag Pb prov wm_supplied Clb Cub l1 dir has_initial stop_req time_up outer_oot PP ls_fuel inner_fuel). Qed.
+
+  (* MAIN.  rc: any outer iteration of the run; w / w': the worlds (cumulative counters) in which its inner solve started / which it
+     handed on.  (A) if the request is visible at w', the RUN ENDS at rc: no further inner solve.  (B) it is visible there when a poll
+     of this solve saw it, and the solve is then prompt.  (C) it is visible there when it was visible at w, and the solve is then
+     start-up + one stop check.  (D) Interrupted from the inner solver is propagated at once. *)
+  Theorem C19_alm_panoc_stop_ends_run : sticky stop_req -> forall outer_fuel nanv Σ0 y0 x0 co, Almp outer_fuel nanv Σ0 y0 x0 = Some co ->
     forall pre rc post, co_trace co = pre ++ rc :: post ->
     exists (x : list R) (w : counters) (x' : list R) (lg : result (T:=R)) (w' : counters),
       Called x0 cnt0 pre x w /\
       Inner w (it_i rc) x (it_y rc) (it_Sigma rc) (it_tol rc) (it_err_in rc) = Some (it_res rc, x', lg, w') /\
-      forall pp, Inner_polled w x (it_y rc) (it_Sigma rc) (it_tol rc) (it_err_in rc) pp -> stop_req (cadd w (pp_cnt pp)) = true ->
-        (exists o, lg = Done o /\ prompt_after (with_opts PP (it_tol rc)) pp o) /\
-        (ir_status (it_res rc) = Interrupted -> post = [] /\ f_status (co_final co) = Interrupted) /\
-        Called1 w' post /\
-        (forall post1 rc' post2, post = post1 ++ rc' :: post2 -> ir_status (it_res rc') = Interrupted ->
-           post2 = [] /\ f_status (co_final co) = Interrupted).
-  Proof. exact (alm_panoc_stop_prompt Pb prov wm_supplied Clb Cub l1 split dir has_initial stop_req time_up outer_oot PP AP ls_fuel inner_fuel). Qed.
-
-  (* at most ONE further inner solve — under the hypothesis that it returns Interrupted (no higher-ranked condition at its first check) *)
-  Theorem C19_alm_one_further_solve_if_interrupted : forall outer_fuel nanv Σ0 y0 x0 co, Almp outer_fuel nanv Σ0 y0 x0 = Some co ->
-    forall pre rc rc' post2, co_trace co = pre ++ rc :: rc' :: post2 -> ir_status (it_res rc') = Interrupted ->
-    post2 = [] /\ f_status (co_final co) = Interrupted.
-  Proof. exact (alm_one_more_if_interrupted Pb prov wm_supplied Clb Cub l1 split dir has_initial stop_req time_up outer_oot PP AP ls_fuel inner_fuel). Qed.
+      (stop_req w' = true -> run_ends_at AP (pb_of Pb split) pre rc post (co_final co)) /\
+      (forall pp, Inner_polled w x (it_y rc) (it_Sigma rc) (it_tol rc) (it_err_in rc) pp -> stop_req (cadd w (pp_cnt pp)) = true ->
+         (exists o, lg = Done o /\ prompt_after (with_opts PP (it_tol rc)) pp o) /\ stop_req w' = true) /\
+      (stop_req w = true -> one_check lg (it_res rc) /\ stop_req w' = true) /\
+      (ir_status (it_res rc) = Interrupted -> post = [] /\ f_status (co_final co) = Interrupted).
+  Proof. exact (alm_panoc_stop_ends_run Pb prov wm_supplied Clb Cub l1 split dir has_initial stop_req time_up outer_oot PP AP ls_fuel inner_fuel). Qed.
 End C19_ALM.
 Print Assumptions C19_alm_inner_started_after_request.
-Print Assumptions C19_alm_panoc_stop_is_prompt.
-Print Assumptions C19_alm_one_further_solve_if_interrupted.
+Print Assumptions C19_alm_panoc_stop_ends_run.
 
 (* ====================================================================== under ALM: ZeroFPR, PANTR, FISTA as inner solvers (over R) *)
 From Alpaqa Require Import AlmZeroFpr AlmPantr AlmFista StopPromptAlmG.
@@ -488,9 +524,10 @@ Section C19_ALM_OTHERS.
   Variable AP : alm_params (T:=R).
   Variables (ls_fuel inner_fuel : nat).
 
-  (* rc: any outer iteration of the run; if a poll pp of ITS inner solve sees the request, that solve is prompt (as stand-alone) and
-     every later inner solve (post) is start-up + one stop check (gcalled1 … zone_check); Interrupted is propagated at once *)
-  Theorem C19_alm_zerofpr_stop_is_prompt : forall (dir : nat -> iterate (T:=R) -> proxit (T:=R) -> option (list R)) stop_req time_up (PP : params (T:=R)),
+  (* the statement of C19_alm_panoc_stop_ends_run for the other three inner solvers: (A) request visible when the inner solve of rc
+     returns => the run ends at rc, no further inner solve; (B) a poll of that solve saw it => prompt (as stand-alone) and visible at
+     the return; (C) visible at the start => start-up + one stop check and visible at the return; (D) Interrupted propagated at once *)
+  Theorem C19_alm_zerofpr_stop_ends_run : forall (dir : nat -> iterate (T:=R) -> proxit (T:=R) -> option (list R)) stop_req time_up (PP : params (T:=R)),
     sticky stop_req -> forall outer_fuel nanv Σ0 y0 x0 co,
     alm_zerofpr Pb prov wm_supplied Clb Cub l1 split dir has_initial stop_req time_up outer_oot PP AP ls_fuel inner_fuel outer_fuel nanv Σ0 y0 x0 = Some co ->
     forall pre rc post, co_trace co = pre ++ rc :: post ->
@@ -498,18 +535,15 @@ Section C19_ALM_OTHERS.
       called counters (result (T:=R)) (zinner Pb prov wm_supplied Clb Cub l1 dir has_initial stop_req time_up outer_oot PP ls_fuel inner_fuel) x0 cnt0 pre x w /\
       zinner Pb prov wm_supplied Clb Cub l1 dir has_initial stop_req time_up outer_oot PP ls_fuel inner_fuel
              w (it_i rc) x (it_y rc) (it_Sigma rc) (it_tol rc) (it_err_in rc) = Some (it_res rc, x', lg, w') /\
-      (ir_status (it_res rc) = Interrupted -> post = [] /\ f_status (co_final co) = Interrupted) /\
-      (forall post1 rc' post2, post = post1 ++ rc' :: post2 -> ir_status (it_res rc') = Interrupted ->
-         post2 = [] /\ f_status (co_final co) = Interrupted) /\
-      forall pp o, lg = Done o ->
-        zinner_polled Pb prov wm_supplied Clb Cub l1 dir has_initial stop_req time_up PP ls_fuel w x (it_y rc) (it_Sigma rc) (it_tol rc) (it_err_in rc) pp ->
-        stop_req (cadd w (pp_cnt pp)) = true ->
-        zprompt_after (with_opts PP (it_tol rc)) pp o /\
-        gcalled1 counters (result (T:=R)) (zinner Pb prov wm_supplied Clb Cub l1 dir has_initial stop_req time_up outer_oot PP ls_fuel inner_fuel)
-                 zone_check w' post.
-  Proof. exact (fun dir stop_req time_up PP => alm_zerofpr_stop_prompt Pb prov wm_supplied Clb Cub l1 split dir has_initial stop_req time_up outer_oot PP AP ls_fuel inner_fuel). Qed.
+      (stop_req w' = true -> run_ends_at AP (pb_of Pb split) pre rc post (co_final co)) /\
+      (forall pp o, lg = Done o ->
+         zinner_polled Pb prov wm_supplied Clb Cub l1 dir has_initial stop_req time_up PP ls_fuel w x (it_y rc) (it_Sigma rc) (it_tol rc) (it_err_in rc) pp ->
+         stop_req (cadd w (pp_cnt pp)) = true -> zprompt_after (with_opts PP (it_tol rc)) pp o /\ stop_req w' = true) /\
+      (stop_req w = true -> zone_check lg (it_res rc) /\ stop_req w' = true) /\
+      (ir_status (it_res rc) = Interrupted -> post = [] /\ f_status (co_final co) = Interrupted).
+  Proof. exact (fun dir stop_req time_up PP => alm_zerofpr_stop_ends_run Pb prov wm_supplied Clb Cub l1 split dir has_initial stop_req time_up outer_oot PP AP ls_fuel inner_fuel). Qed.
 
-  Theorem C19_alm_pantr_stop_is_prompt : forall (tr_dir : nat -> iterate (T:=R) -> R -> list R * R) stop_req time_up (TP : trparams (T:=R)),
+  Theorem C19_alm_pantr_stop_ends_run : forall (tr_dir : nat -> iterate (T:=R) -> R -> list R * R) stop_req time_up (TP : trparams (T:=R)),
     sticky stop_req -> forall outer_fuel nanv Σ0 y0 x0 co,
     alm_pantr Pb prov wm_supplied Clb Cub l1 split tr_dir has_initial stop_req time_up outer_oot TP AP ls_fuel inner_fuel outer_fuel nanv Σ0 y0 x0 = Some co ->
     forall pre rc post, co_trace co = pre ++ rc :: post ->
@@ -517,18 +551,15 @@ Section C19_ALM_OTHERS.
       called counters (tresult (T:=R)) (tinner Pb prov wm_supplied Clb Cub l1 tr_dir has_initial stop_req time_up outer_oot TP ls_fuel inner_fuel) x0 cnt0 pre x w /\
       tinner Pb prov wm_supplied Clb Cub l1 tr_dir has_initial stop_req time_up outer_oot TP ls_fuel inner_fuel
              w (it_i rc) x (it_y rc) (it_Sigma rc) (it_tol rc) (it_err_in rc) = Some (it_res rc, x', lg, w') /\
-      (ir_status (it_res rc) = Interrupted -> post = [] /\ f_status (co_final co) = Interrupted) /\
-      (forall post1 rc' post2, post = post1 ++ rc' :: post2 -> ir_status (it_res rc') = Interrupted ->
-         post2 = [] /\ f_status (co_final co) = Interrupted) /\
-      forall pp o, lg = TDone o ->
-        tinner_polled Pb prov wm_supplied Clb Cub l1 tr_dir has_initial stop_req time_up TP ls_fuel w x (it_y rc) (it_Sigma rc) (it_tol rc) (it_err_in rc) pp ->
-        stop_req (cadd w (pp_cnt pp)) = true ->
-        tprompt_after (tr_with_opts TP (it_tol rc)) pp o /\
-        gcalled1 counters (tresult (T:=R)) (tinner Pb prov wm_supplied Clb Cub l1 tr_dir has_initial stop_req time_up outer_oot TP ls_fuel inner_fuel)
-                 tone_check w' post.
-  Proof. exact (fun tr_dir stop_req time_up TP => alm_pantr_stop_prompt Pb prov wm_supplied Clb Cub l1 split tr_dir has_initial stop_req time_up outer_oot TP AP ls_fuel inner_fuel). Qed.
+      (stop_req w' = true -> run_ends_at AP (pb_of Pb split) pre rc post (co_final co)) /\
+      (forall pp o, lg = TDone o ->
+         tinner_polled Pb prov wm_supplied Clb Cub l1 tr_dir has_initial stop_req time_up TP ls_fuel w x (it_y rc) (it_Sigma rc) (it_tol rc) (it_err_in rc) pp ->
+         stop_req (cadd w (pp_cnt pp)) = true -> tprompt_after (tr_with_opts TP (it_tol rc)) pp o /\ stop_req w' = true) /\
+      (stop_req w = true -> tone_check lg (it_res rc) /\ stop_req w' = true) /\
+      (ir_status (it_res rc) = Interrupted -> post = [] /\ f_status (co_final co) = Interrupted).
+  Proof. exact (fun tr_dir stop_req time_up TP => alm_pantr_stop_ends_run Pb prov wm_supplied Clb Cub l1 split tr_dir has_initial stop_req time_up outer_oot TP AP ls_fuel inner_fuel). Qed.
 
-  Theorem C19_alm_fista_stop_is_prompt : forall stop_req time_up (FP : fparams (T:=R)),
+  Theorem C19_alm_fista_stop_ends_run : forall stop_req time_up (FP : fparams (T:=R)),
     fsticky stop_req -> forall outer_fuel nanv Σ0 y0 x0 co,
     alm_fista Pb prov Clb Cub l1 split stop_req time_up outer_oot FP AP ls_fuel inner_fuel outer_fuel nanv Σ0 y0 x0 = Some co ->
     forall pre rc post, co_trace co = pre ++ rc :: post ->
@@ -536,15 +567,13 @@ Section C19_ALM_OTHERS.
       called fcounters (fresult (T:=R)) (finner Pb prov Clb Cub l1 stop_req time_up outer_oot FP ls_fuel inner_fuel) x0 fcnt0 pre x w /\
       finner Pb prov Clb Cub l1 stop_req time_up outer_oot FP ls_fuel inner_fuel
              w (it_i rc) x (it_y rc) (it_Sigma rc) (it_tol rc) (it_err_in rc) = Some (it_res rc, x', lg, w') /\
-      (ir_status (it_res rc) = Interrupted -> post = [] /\ f_status (co_final co) = Interrupted) /\
-      (forall post1 rc' post2, post = post1 ++ rc' :: post2 -> ir_status (it_res rc') = Interrupted ->
-         post2 = [] /\ f_status (co_final co) = Interrupted) /\
-      forall pp o, lg = FDone o ->
-        finner_polled Pb prov Clb Cub l1 stop_req time_up FP ls_fuel w x (it_y rc) (it_Sigma rc) (it_tol rc) (it_err_in rc) pp ->
-        stop_req (fcadd w (fpp_cnt pp)) = true ->
-        fprompt_after (fwith_opts FP (it_tol rc)) pp o /\
-        gcalled1 fcounters (fresult (T:=R)) (finner Pb prov Clb Cub l1 stop_req time_up outer_oot FP ls_fuel inner_fuel) fone_check w' post.
-  Proof. exact (fun stop_req time_up FP => alm_fista_stop_prompt Pb prov Clb Cub l1 split stop_req time_up outer_oot FP AP ls_fuel inner_fuel). Qed.
+      (stop_req w' = true -> run_ends_at AP (pb_of Pb split) pre rc post (co_final co)) /\
+      (forall pp o, lg = FDone o ->
+         finner_polled Pb prov Clb Cub l1 stop_req time_up FP ls_fuel w x (it_y rc) (it_Sigma rc) (it_tol rc) (it_err_in rc) pp ->
+         stop_req (fcadd w (fpp_cnt pp)) = true -> fprompt_after (fwith_opts FP (it_tol rc)) pp o /\ stop_req w' = true) /\
+      (stop_req w = true -> fone_check lg (it_res rc) /\ stop_req w' = true) /\
+      (ir_status (it_res rc) = Interrupted -> post = [] /\ f_status (co_final co) = Interrupted).
+  Proof. exact (fun stop_req time_up FP => alm_fista_stop_ends_run Pb prov Clb Cub l1 split stop_req time_up outer_oot FP AP ls_fuel inner_fuel). Qed.
 
   (* what a one-check solve is, for the three solvers *)
   Theorem C19_one_check_means_others :
@@ -574,9 +603,9 @@ Section C19_ALM_OTHERS.
        end).
   Proof. exact (conj (fun _ _ => conj (fun H => H) (fun H => H)) (conj (fun _ _ => conj (fun H => H) (fun H => H)) (fun _ _ => conj (fun H => H) (fun H => H)))). Qed.
 End C19_ALM_OTHERS.
-Print Assumptions C19_alm_zerofpr_stop_is_prompt.
-Print Assumptions C19_alm_pantr_stop_is_prompt.
-Print Assumptions C19_alm_fista_stop_is_prompt.
+Print Assumptions C19_alm_zerofpr_stop_ends_run.
+Print Assumptions C19_alm_pantr_stop_ends_run.
+Print Assumptions C19_alm_fista_stop_ends_run.
 
 (* ====================================================================== PANOC-OCP (PanocOcpLoop.v), every number system *)
 From Alpaqa Require PanocOcpLoop StopPromptOcp.
@@ -653,11 +682,12 @@ Proof. exact (conj ex_stop_sticky (conj ex_run_done (conj ex_polled (conj ex_pp_
 Example C19_panoc_prompt_instance : prompt_after ex_P ex_pp ex_out.
 Proof. exact (panoc_stop_prompt _ _ _ _ _ _ _ _ _ _ _ _ _ _ _ _ _ ex_stop_sticky 5 ex_out ex_run_done ex_pp ex_polled ex_pp_sees). Qed.
 
-(* FINDING: under ALM a visible request does not bound the number of further inner solves by one.  Composed model at binary64 on
-   min -x, x in [0,1], x <= 1/2, x0 = 1, y0 = 0, Σ0 = 0.01, stop() inside evaluation #0: FOUR inner solves, each start-up + one check
-   (polls = 1, direction calls = 0), statuses Converged, Converged, Converged, Interrupted; ALM returns Interrupted.
-   harness/drv_solve on the real code: the same four outer iterations, 41 user-function evaluations after the request. *)
-Example C19_alm_one_further_solve_refuted :
-  ex_alm_summary = Some (Interrupted, [(Converged, 0); (Converged, 0); (Converged, 0); (Interrupted, 0)]%nat,
-                         [(1, 0); (1, 0); (1, 0); (1, 0)]%nat).
-Proof. exact ex_alm_four_solves. Qed.
+(* under ALM: the former counter-run to "no further inner solve" (known_findings C19:alm-runs-on-after-stop-request), replayed on the
+   composed model at binary64: min -x, x in [0,1], x <= 1/2, x0 = 1, y0 = 0, Σ0 = 0.01, ProjGradNorm, stop() inside evaluation #0
+   (sticky).  The first inner solve is start-up + one check (polls = 1, direction calls = 0) and returns Converged (the warm start
+   meets the inner tolerance; Converged outranks Interrupted in the inner chain); the outer loop reads its own flag as set after it
+   ([true]), is not converged itself (slack error 1/2) and returns Interrupted with outer_iterations = 1: ONE inner solve, where the
+   code before the repair started three more (Converged, Converged, Interrupted; 41 user-function evaluations after the request). *)
+Example C19_alm_stop_ends_run_nonvacuous :
+  ex_alm_summary = Some (Interrupted, [(Converged, 0)]%nat, [(1, 0)]%nat) /\ ex_alm_flags = Some ([true], 1%nat).
+Proof. exact (conj ex_alm_one_solve ex_alm_flag_read). Qed.
